@@ -8,9 +8,12 @@ import AsyncsshModel.Gen.C03
   * `parseKexInit`      — the getter sequence at the top of `_process_kexinit` (2364-2377) incl. `check_end()`.
   * `classifyVersionLine` — `_recv_version` (1566-1611) for one received line.
   * `chooseAlg`         — `_choose_alg` (1495-1516): first algorithm on the client's list the server has.
-  * `negotiate`         — the sequence of `_choose_alg` calls of `_process_kexinit` (2433-2466), with the
-                          server's host-key choice (`choose_server_host_key`, 5937-5956) and the rule that a
-                          cipher which needs no MAC fixes the MAC name (2451-2461).
+  * `negotiate`         — the sequence of `_choose_alg` calls of `_process_kexinit`, with the host key
+                          algorithm (the server's `choose_server_host_key`, the client's
+                          `_choose_alg('server host key', ...)`) and the rule that a cipher which needs no MAC
+                          fixes the MAC name.
+  * `sigAlgFor`         — `get_signature_alg` (public_key.py): the signature algorithm that belongs to a host
+                          key algorithm.
   Names are byte strings (`Bytes`); tables come from the regenerated `Gen/C03.lean`.
 -/
 namespace AsyncsshModel.Kex
@@ -130,7 +133,7 @@ def classifyVersionLine (isClient : Bool) (line : Bytes) : VersionLine :=
     let v := stripCR line
     if isPrefixOf (strBytes "SSH-2.0-") v || isPrefixOf (strBytes "SSH-1.99-") v then
       if Gen.C03.MAX_VERSION_LINE_LEN < v.length then .reject .proto
-      else if v.any (· ≥ 128) then .reject .internal     -- `version.decode('ascii')` raises UnicodeDecodeError
+      else if v.any (· ≥ 128) then .reject .proto       -- `not version.isascii()`: 'Invalid version'
       else .version v
     else if isClient && !isPrefixOf (strBytes "SSH-") v then .banner
     else .reject .proto        -- ProtocolNotSupported is reported in the same class by the harness
@@ -160,6 +163,8 @@ structure LocalAlgs where
 
 structure Negotiated where
   kex : Name
+  /-- the server host key algorithm (`[]` = none: GSS key exchange) -/
+  hostKey : Name
   encCS : Name
   encSC : Name
   macCS : Name
@@ -192,43 +197,64 @@ def optErr {α : Type} (o : Option α) (e : Err) : Except Err α :=
   | some a => .ok a
   | none => .error e
 
-/-- what `_choose_alg` raises when the lists are disjoint: KeyExchangeFailed, whose message is built with
-    `b','.join(algs).decode('ascii')` for both lists — a name with a byte ≥ 0x80 makes that raise
-    UnicodeDecodeError instead, which reaches `internal_error()` -/
-def chooseErr (localAlgs remoteAlgs : List Name) : Err :=
-  if localAlgs.any (·.any (· ≥ 128)) || remoteAlgs.any (·.any (· ≥ 128)) then .internal else .kexFailed
+/-- what `_choose_alg` raises when the lists are disjoint: KeyExchangeFailed (its message decodes the peer's
+    names with `backslashreplace`, so a name with a byte ≥ 0x80 changes nothing) -/
+def chooseErr (_localAlgs _remoteAlgs : List Name) : Err := .kexFailed
 
 /-- `_choose_alg` with its exception -/
 def chooseOrErr (isClient : Bool) (localAlgs remoteAlgs : List Name) : Except Err Name :=
   optErr (chooseAlg isClient localAlgs remoteAlgs) (chooseErr localAlgs remoteAlgs)
 
 /-- the cipher, MAC and compression choices of `_process_kexinit` (2446-2466), in the code's order -/
-def negotiateRest (isClient : Bool) (loc : LocalAlgs) (peer : KexInit) (kex : Name) : Except Err Negotiated := do
+def negotiateRest (isClient : Bool) (loc : LocalAlgs) (peer : KexInit) (kex hostKey : Name) :
+    Except Err Negotiated := do
   let encCS ← chooseOrErr isClient loc.enc peer.encCS
   let encSC ← chooseOrErr isClient loc.enc peer.encSC
   let macCS ← if needsMac encCS then chooseOrErr isClient loc.mac peer.macCS else pure encCS
   let macSC ← if needsMac encSC then chooseOrErr isClient loc.mac peer.macSC else pure encSC
   let cmpCS ← chooseOrErr isClient loc.cmp peer.cmpCS
   let cmpSC ← chooseOrErr isClient loc.cmp peer.cmpSC
-  pure { kex := kex, encCS := encCS, encSC := encSC, macCS := macCS, macSC := macSC,
+  pure { kex := kex, hostKey := hostKey, encCS := encCS, encSC := encSC, macCS := macCS, macSC := macSC,
          cmpCS := cmpCS, cmpSC := cmpSC }
 
-/-- a server without a key for any host key algorithm of the client gives up, unless the exchange is a GSS
-    one (`kex_alg.startswith(b'gss-')`) -/
-def serverLacksHostKey (isClient : Bool) (loc : LocalAlgs) (peer : KexInit) (kex : Name) : Bool :=
-  !isClient && (firstIn peer.hostKeyAlgs loc.hostKey).isNone && !isPrefixOf (strBytes "gss-") kex
-
-/-- the part of `_process_kexinit` that picks algorithms (2433-2466) -/
-def negotiate (isClient : Bool) (loc : LocalAlgs) (peer : KexInit) : Except Err Negotiated :=
-  match chooseAlg isClient loc.kex peer.kexAlgs with
-  | none => .error (chooseErr loc.kex peer.kexAlgs)
-  | some kex =>
-    if serverLacksHostKey isClient loc peer kex then .error .kexFailed
-    else negotiateRest isClient loc peer kex
+/-- `kex_alg.startswith(b'gss-')` -/
+def isGssKex (kex : Name) : Bool := isPrefixOf (strBytes "gss-") kex
 
 /-- `choose_server_host_key(peer_host_key_algs)`: the first client algorithm the server has a key for -/
 def chooseHostKeyAlg (serverKeyAlgs clientAlgs : List Name) : Option Name :=
   firstIn clientAlgs serverKeyAlgs
+
+/-- the server host key algorithm of `_process_kexinit`.  A server runs `choose_server_host_key` and gives up
+    (KeyExchangeFailed) without a key for any algorithm of the client; a client records
+    `_choose_alg('server host key', self._server_host_key_algs, peer_host_key_algs)`.  A GSS exchange
+    (`kex_alg.startswith(b'gss-')`) needs none: the server keeps a key if it has one, the client chooses nothing. -/
+def chooseHostKey (isClient : Bool) (loc : LocalAlgs) (peer : KexInit) (kex : Name) : Except Err Name :=
+  if isGssKex kex then
+    .ok (if isClient then [] else (chooseHostKeyAlg loc.hostKey peer.hostKeyAlgs).getD [])
+  else chooseOrErr isClient loc.hostKey peer.hostKeyAlgs
+
+/-- the client before the repair: `peer_host_key_algs` was parsed and never used, nothing was chosen -/
+def chooseHostKeyPreFix (isClient : Bool) (loc : LocalAlgs) (peer : KexInit) (kex : Name) : Except Err Name :=
+  if isClient then .ok [] else chooseHostKey false loc peer kex
+
+/-- the part of `_process_kexinit` that picks algorithms, in the code's order: key exchange method, server
+    host key algorithm, then ciphers, MACs and compression -/
+def negotiate (isClient : Bool) (loc : LocalAlgs) (peer : KexInit) : Except Err Negotiated :=
+  match chooseAlg isClient loc.kex peer.kexAlgs with
+  | none => .error (chooseErr loc.kex peer.kexAlgs)
+  | some kex =>
+    match chooseHostKey isClient loc peer kex with
+    | .error e => .error e
+    | .ok hostKey => negotiateRest isClient loc peer kex hostKey
+
+/-- `get_signature_alg(host_key_alg)` (public_key.py): the signature algorithm that goes with a host key
+    algorithm — certificate algorithms map through `_certificate_sig_alg_map`, and `SSHKey.sign` drops the
+    `x509v3-` prefix.  It is what `SSHKeyPair.set_sig_algorithm` + `SSHKey.sign` put in front of a signature. -/
+def sigAlgFor (hostKeyAlg : Name) : Name :=
+  let a := match Gen.C03.certSigAlgMap.find? (fun r => strBytes r.1 == hostKeyAlg) with
+    | some r => strBytes r.2
+    | none => hostKeyAlg
+  if isPrefixOf (strBytes "x509v3-") a then a.drop 7 else a
 
 /-- `self._ignore_first_kex = first_kex_follows and self._kex.algorithm != peer_kex_algs[0]` -/
 def ignoreFirstKex (peer : KexInit) (kex : Name) : Bool :=
